@@ -180,6 +180,9 @@ def directed(rng):
         # callbacks issued with a context that can never end (context.Background()): only a reply or the stop ends them
         add('cb-noctx-stop-%d' % v, P, [dict(a='callback', c='cbA', noctx=True), D, dict(a='stop'), D])
         add('cb-noctx-eof-%d' % v, P, [dict(a='callback', c='cbA', noctx=True), dict(a='callback', c='cbB'), D, dict(a='peerclose'), D])
+        # a push whose Send fails, issued with a context that can never end: nothing of it may outlive the server
+        add('cb-noctx-sendfail-%d' % v, P, [dict(a='sendfail'), dict(a='callback', c='cbA', noctx=True), dict(a='notify'), D, [dict(a='stop'), dict(a='peerclose'), dict(a='recverr')][v], D])
+        add('cb-noctx-sendfail-reply-%d' % v, P, [S(call(1)), D, dict(a='sendfail'), dict(a='callback', c='cbA', noctx=True), D, S(reply(1, v)), D, hret('m1.1'), D, dict(a='stop'), D])
         add('cb-noctx-reply-%d' % v, P, [dict(a='callback', c='cbA', noctx=True), D, S(reply(1, v)), D, dict(a='callback', c='cbB', noctx=True), D, dict(a='recverr'), D])
         add('cb-mixed-%d' % v, P, [dict(a='callback', c='cbA'), D, S(reply(1, v), call(1)), D, hret('m1.2'), D])
         add('nopush-%d' % v, {}, [dict(a='callback', c='cbA'), dict(a='notify'), D, S(reply(1, v)), D])
@@ -204,7 +207,7 @@ FAMILY = {
 
 # model sensitivity: with the repair of a finding switched off TLC must find the violation (else exit 2)
 REGRESS = {'C07': [('regress_F1', 'C07_Reservations'), ('regress_F7', 'C07_Reservations')],
-           'C08': [('regress_F23', 'NoCrash'), ('regress_F4', 'NoCrash')],
+           'C08': [('regress_F23', 'NoCrash'), ('regress_F4', 'NoCrash'), ('regress_F14', 'C08_NoStrandedWatcher')],
            'C09': [('regress_F9', 'C09_NoAnswerToLateReply')]}
 
 def must_fail(cfg, inv, module='MCServer'):
